@@ -140,6 +140,7 @@ type Run struct {
 	SubWins       map[string]*subWin // cluster submissions by job directory (relative to the scratch root)
 	subTask       map[string]string
 	stallIdx      int
+	parkedSince   map[*vrt.Task]time.Time
 	stallBase     int
 	Output        []string // mrp stdout lines
 	outBuf        strings.Builder
@@ -547,6 +548,15 @@ func (r *Run) classWeight(t *vrt.Task) int {
 		w = 1
 	}
 	w *= 16
+	if strings.HasSuffix(t.Label, "/heartbeat") {
+		// the monitor's heartbeat thread is never starved for an hour while the
+		// stage code of the same process keeps running: whatever makes a job slow
+		// here does not apply to it (a silent job is a fault of its own: C11)
+		if w < 160 {
+			w = 160
+		}
+		return w
+	}
 	if r.Cfg.SlowLabel != "" && r.Cfg.SlowDiv > 1 && strings.Contains(t.Label, r.Cfg.SlowLabel) {
 		w /= r.Cfg.SlowDiv
 		if w < 1 {
@@ -764,8 +774,19 @@ func (r *Run) release(parked []*vrt.Task, allowTime bool) bool {
 		return true
 	}
 	w := make([]int, 0, len(parked)+1)
+	now := time.Now()
+	if r.parkedSince == nil {
+		r.parkedSince = map[*vrt.Task]time.Time{}
+	}
 	for _, t := range parked {
 		w = append(w, r.classWeight(t))
+		if ps, ok := r.parkedSince[t]; !ok {
+			r.parkedSince[t] = now
+		} else if now.Sub(ps) > 10*time.Minute {
+			// a runnable task has been waiting for ten simulated minutes: no
+			// machine starves a thread that long while its clock goes on
+			allowTime = false
+		}
 	}
 	if allowTime && haveDl && r.Cfg.WTime > 0 {
 		w = append(w, r.Cfg.WTime*16)
@@ -776,6 +797,7 @@ func (r *Run) release(parked []*vrt.Task, allowTime bool) bool {
 		return true
 	}
 	t := parked[i]
+	delete(r.parkedSince, t)
 	r.record(t, len(parked))
 	vrt.Release(t, vrt.FaultNone)
 	return true
